@@ -1246,6 +1246,7 @@ def ctor_rules(F, R, variant):
     Every message view is `from_bytes(&buffer[window.start..])`; window.start is 0 after a reset/compaction and otherwise advances by
     size() (multiple of ALIGN: F2.*), so the alignment of every view reduces to the alignment of the allocation itself."""
     from e5_formulas import canon
+    from e5_formulas import canon as _canon
     import re as _re
     inner = r"(\$max_msg_len|core::cmp::Ord::max\((\$max_msg_len, [^()]+|[^()]+, \$max_msg_len)\))"
     cap_re = _re.compile(r"^(Mul\((\d+), )?%s\)?$" % inner)   # k * max_msg_len or k * max(max_msg_len, c), k >= 1
@@ -1296,8 +1297,55 @@ def ctor_rules(F, R, variant):
     lay = "core::result::Result::<T, E>::unwrap(core::alloc::layout::Layout::from_size_align($size, $align))"
     exp = "AlignedBytes{alloc::alloc::alloc(%s), %s}" % (lay, lay)
     exp2 = "AlignedBytes{alloc::alloc::alloc_zeroed(%s), %s}" % (lay, lay)
-    R.ob("A3.alloc-layout", "AlignedBytes::new", "alloc", len(rets) == 1 and rets[0] in (exp, exp2),
-         "AlignedBytes::new allocates Layout::from_size_align(size, align) and records that layout (%s)" % [r[:200] for r in rets], where=bj["span"])
+    ok_old = len(rets) == 1 and rets[0] in (exp, exp2)
+    # repaired form: the pointer is a local with two definitions (allocation / dangling aligned pointer for size 0), evaluated per path
+    ok_new, zero_guard = False, False
+    ac = find_calls(body, "alloc::alloc::alloc", "alloc::alloc::alloc_zeroed")
+    if len(rets) == 1 and rets[0] == "AlignedBytes{%%data, %s}" % lay and len(ac) == 1 and _canon(body.expr_of_call(ac[0][1], 0, ac[0][0])[3][0]) == lay:
+        ok_new = True
+        for pth in body.paths(0):
+            if body.term(pth[-1]) != "return":
+                continue
+            zero, val = None, None
+            for ev in events(body, pth):
+                if ev.kind == "branch" and ev.a[0] == "bin":
+                    bt = bool_taken(ev)
+                    n_ = norm_cmp(ev.a, bt) if bt is not None else None
+                    if n_ and n_[0] in ("Eq", "Ne") and {_canon(n_[1]), _canon(n_[2])} == {"0", "core::alloc::layout::Layout::size(%s)" % lay}:
+                        zero = n_[0] == "Eq"
+                elif ev.kind == "call":
+                    dl = ev.a.get("dest")
+                    if dl and not dl["p"] and body.local_name(dl["v"]) == "data":
+                        val = _canon(ev.b)
+            if zero is True:
+                ok_new = ok_new and val == "core::ptr::mut_ptr::<impl *mut T>::wrapping_add(core::ptr::null_mut(), core::alloc::layout::Layout::align(%s))" % lay
+            else:
+                ok_new = ok_new and val is not None and val.startswith("alloc::alloc::alloc") and val.endswith("(%s)" % lay)
+            if zero is None:
+                ok_new = False
+        zero_guard = ok_new
+    R.ob("A3.alloc-layout", "AlignedBytes::new", "alloc", ok_old or ok_new,
+         "AlignedBytes::new allocates Layout::from_size_align(size, align) (an aligned dangling pointer when the size is 0) and records that layout (%s)" % [r[:200] for r in rets],
+         where=bj["span"])
+    # GlobalAlloc::alloc must not be called with a zero-sized layout (undefined behaviour): io(pipe, 0) for a zero-sized message type and every
+    # zero-length AlignedBytes go through here
+    dbj = F.one(krate="flatty_containers", def_re=r"^<flatty_containers::bytes::AlignedBytes as core::ops::drop::Drop>::drop$")
+    db = Body(dbj)
+    dc = find_calls(db, "alloc::alloc::dealloc")
+    drop_guard = False
+    if len(dc) == 1:
+        for sbb, st in db.switches():
+            cnd = db.expr_of_operand(st["switch"])
+            for truth in (True, False):
+                n_ = norm_cmp(cnd, truth)
+                if n_ and n_[0] == "Ne" and {_canon(n_[1]), _canon(n_[2])} == {"0", "core::alloc::layout::Layout::size($self.1)"}:
+                    ft = [b_ for v, b_ in st["targets"] if int(v) == 0]
+                    tgt = st["otherwise"] if truth else (ft[0] if ft else None)
+                    if tgt is not None and db.edge_dominates((sbb, tgt), dc[0][0]):
+                        drop_guard = True
+    R.ob("A3.no-zero-alloc", "AlignedBytes::new / drop", "size != 0", zero_guard and drop_guard,
+         "alloc / dealloc are called only for a non-zero size (a zero-sized layout is undefined behaviour for the global allocator): "
+         "new guards alloc: %s, drop guards dealloc: %s" % (zero_guard, drop_guard), where=bj["span"])
     for meth, raw in (("as_ref", "from_raw_parts"), ("as_mut", "from_raw_parts_mut")):
         bj = F.one(krate="flatty_containers", def_re=r"^<flatty_containers::bytes::AlignedBytes as core::convert::As(Ref|Mut)<\[u8\]>>::%s$" % meth)
         body = Body(bj)
